@@ -306,8 +306,7 @@ func vpHistSteps() int {
 // C04: every observed transition of the real EventCache is one the statement allows.
 func vpH_C04_history() {
 	n := vpHistSteps()
-	capacity := vpInt("cap")
-	vpAssume(capacity >= 1)
+	capacity := vpCapacity(1)
 	c := NewEventCache(capacity)
 	vpRunC04(c, vpNewHist(n, false, false), capacity)
 }
@@ -315,8 +314,7 @@ func vpH_C04_history() {
 // The same with "rich" deletion requests (3-element reference tags, two
 // references per request) on histories of 2 steps.
 func vpH_C04_rich() {
-	capacity := vpInt("cap")
-	vpAssume(capacity >= 1)
+	capacity := vpCapacity(1)
 	c := NewEventCache(capacity)
 	vpRunC04(c, vpNewHist(2, false, true), capacity)
 }
@@ -369,8 +367,7 @@ func vpProject(l []*Event, pk string) []*Event {
 
 func vpH_C05_history() {
 	n := vpHistSteps()
-	capacity := vpInt("cap")
-	vpAssume(capacity >= n)
+	capacity := vpCapacity(n)
 	c := NewEventCache(capacity)
 	shadow := map[string]*EventCache{"A": NewEventCache(capacity), "B": NewEventCache(capacity)}
 	h := vpNewHist(n, true, false)
@@ -397,8 +394,7 @@ func vpH_C05_history() {
 
 func vpH_C03_query() {
 	n := 2
-	capacity := vpInt("cap")
-	vpAssume(capacity >= 1)
+	capacity := vpCapacity(1)
 	c := NewEventCache(capacity)
 	h := vpNewHist(n, true, false)
 	for i := 0; i < n; i++ {
@@ -504,8 +500,7 @@ func specQuery(P string, retained []*Event, fs []*ReqFilter, got []*Event) {
 // the per-state clauses are then C04/C05's step invariants, re-asserted here.
 func vpH_C15_lockset() {
 	n := vpHistSteps()
-	capacity := vpInt("cap")
-	vpAssume(capacity >= 1)
+	capacity := vpCapacity(1)
 	c := NewEventCache(capacity)
 	vpGuardedBy(c, &c.mu, "Event")
 	h := vpNewHist(n, true, false)
